@@ -121,6 +121,33 @@ def build():
     return b
 
 
+def coq_closure(roots):
+    """transitive dependencies (as theories/...v paths) of the given .v files, read from the
+    dependency file coq_makefile maintains; None when it cannot be determined"""
+    try:
+        txt = open(COQ + '/.Makefile.d').read()
+    except OSError:
+        return None
+    deps = {}
+    for ln in txt.split('\n'):
+        if ':' not in ln:
+            continue
+        lhs, rhs = ln.split(':', 1)
+        tg = [t for t in lhs.split() if t.endswith('.vo')]
+        if tg:
+            deps[tg[0][:-1]] = [d[:-1] for d in rhs.split() if d.endswith('.vo')]
+    seen, todo = set(), list(roots)
+    while todo:
+        f = todo.pop()
+        if f in seen:
+            continue
+        if f not in deps:
+            return None            # a file the dependency file does not know: be conservative
+        seen.add(f)
+        todo += deps[f]
+    return seen
+
+
 # ---------------------------------------------------------------- proofs
 
 HYGIENE_RE = re.compile(r'\b(Admitted|admit|Axiom|Parameter|Conjecture|Unset Guard|bypass_check|type-in-type|Admit Obligations)\b')
